@@ -10,6 +10,28 @@ use std::sync::atomic::{AtomicUsize, Ordering};
 
 static NODE_COUNTER: AtomicUsize = AtomicUsize::new(1);
 
+/// Verification hook (off unless built with --cfg pushr_verif): current value of the
+/// process-wide node id counter, i.e. the id the next created node receives.
+#[cfg(pushr_verif)]
+pub fn verif_node_counter() -> usize {
+    NODE_COUNTER.load(Ordering::Relaxed)
+}
+
+/// Verification hook (off unless built with --cfg pushr_verif): sets the node id counter so
+/// that a recorded abstract state (which includes the counter) can be rebuilt exactly.
+#[cfg(pushr_verif)]
+pub fn verif_set_node_counter(value: usize) {
+    NODE_COUNTER.store(value, Ordering::Relaxed);
+}
+
+#[cfg(pushr_verif)]
+impl Node {
+    /// Verification hook: rebuilds a node with a recorded id without touching the counter.
+    pub fn verif_with_id(node_id: usize, state: i32) -> Self {
+        Self { node_id, state }
+    }
+}
+
 #[derive(Clone, Debug, Hash, Eq)]
 pub struct Node {
     node_id: usize,
